@@ -455,6 +455,9 @@ func decode(raw json.RawMessage) (interface{}, error) {
 // observation.
 func emit(w *lineio.Writer, jobs []*rt.Job) {
 	for _, j := range jobs {
+		if j.Skipped {
+			continue
+		}
 		var obs interface{} = j.Obs
 		switch {
 		case j.Crashed:
